@@ -310,7 +310,7 @@ def run_history(ops):
     w = World()
     try:
         from ampycloud import dynamic
-        defaults = copy.deepcopy(dynamic.get_default_prms())
+        defaults = common.packaged_defaults()
         secs = ['SYS', 'DEF ' + tree(defaults), f'N {len(ops)}']
         obs = []
         for k, op in enumerate(ops):
